@@ -275,8 +275,17 @@ def _kernel_nf_worker(sub, c):
     """One lattice cell: every kernel the REAL Combiner collects carries the Combiner's nf."""
     sy = H.Sy().numeric({"x": 0.01, "Q2": 5.0e4, "m2c": 2.0, "m2b": 20.0, "m2t": 3.0e4})
     name = "C06/kernel-nf/" + H.cell_name(c)
+    fl11_nfs = []
     try:
         cfg = H.cell_configs(sy, c)
+        cc = cfg.managers["coupling_constants"]
+        orig_fl11 = cc.get_fl11_weight
+
+        def rec_fl11(q, Q2, nf_, ct):
+            fl11_nfs.append(nf_)
+            return orig_fl11(q, Q2, nf_, ct)
+
+        cc.get_fl11_weight = rec_fl11
         ks, comb = H.collect(sy, cfg, c["kind"], c["flavor"], c["nf"])
     except (NotImplementedError, ValueError):
         sub.extra["cells_rejected"] = sub.extra.get("cells_rejected", 0) + 1  # C16's matter
@@ -296,7 +305,10 @@ def _kernel_nf_worker(sub, c):
             bad.append((type(k.coeff).__module__.split(".", 2)[2] + "." + type(k.coeff).__name__, knf, exp))
         if fam == "heavy" and type(k.coeff).__name__.startswith("Singlet") and pids != list(range(1, comb.nf + 1)):
             bad.append((type(k.coeff).__name__ + " partons", pids, list(range(1, comb.nf + 1))))
-    sub.add(ob_eval(name + f"/every kernel is built with nf={comb.nf} (heavy-quark-initiated ones with ihq-1); heavy singlet weights span the nf light quarks", comb.nf == c["nf"] and not bad, detail=f"{len(ks)} kernels" + (f"; offending (class, nf used, nf expected): {bad[:4]}" if bad else ""), inputs={} if not bad else {"cell": H.cell_name(c), "offending": str(bad[:4])}))
+    wrong_fl11 = sorted({n for n in fl11_nfs if n != comb.nf})
+    if wrong_fl11:
+        bad.append(("get_fl11_weight(nf=...)", wrong_fl11, comb.nf))
+    sub.add(ob_eval(name + f"/every kernel is built with nf={comb.nf} (heavy-quark-initiated ones with ihq-1); heavy singlet weights span the nf light quarks; the flavour trace of the fl11 weights runs over nf", comb.nf == c["nf"] and not bad, detail=f"{len(ks)} kernels" + (f"; offending (class, nf used, nf expected): {bad[:4]}" if bad else ""), inputs={} if not bad else {"cell": H.cell_name(c), "offending": str(bad[:4])}))
 
 
 def sec_kernel_nf(rep, tier):
